@@ -28,6 +28,7 @@ import (
 	"sync"
 
 	"github.com/dolthub/dolt/go/libraries/doltcore/memlimit"
+	"github.com/dolthub/dolt/go/libraries/utils/verifhook"
 	"github.com/dolthub/dolt/go/store/chunks"
 	"github.com/dolthub/dolt/go/store/d"
 	"github.com/dolthub/dolt/go/store/hash"
@@ -759,6 +760,7 @@ func (lvs *ValueStore) gc(ctx context.Context,
 		return nil, fmt.Errorf("Error in SaveHashes call: %w", err)
 	}
 	toVisit = nil
+	verifhook.At("gc.afterMark")
 
 	if safepointController != nil {
 		err = safepointController.EstablishPreFinalizeSafepoint(ctx)
@@ -777,7 +779,9 @@ func (lvs *ValueStore) gc(ctx context.Context,
 	}
 	next = nil
 
+	verifhook.At("gc.beforeFinalize")
 	final := finalize()
+	verifhook.At("gc.afterFinalize")
 	err = sweeper.SaveHashes(ctx, final)
 	if err != nil {
 		return nil, err
@@ -790,6 +794,7 @@ func (lvs *ValueStore) gc(ctx context.Context,
 			return nil, err
 		}
 	}
+	verifhook.At("gc.beforeSwap")
 	finalizer, err := sweeper.Finalize(ctx)
 	if err != nil {
 		return nil, err
